@@ -101,12 +101,12 @@ def gen_source(rng):
             extra.append("edge_lonlat")
         if e in ("xyz", "both"):
             extra.append("edge_xyz")
-        spec["dialect"] = {"lon360": rng.random() < 0.4, "extra": extra, "xyz_scale": rng.choice([1.0, 1.0, 2.0, 6371.0, 0.5, 1.000003, 0.999996])}
-    elif r < 0.9:
+        spec["dialect"] = {"lon360": rng.random() < 0.4, "extra": extra, "xyz_scale": rng.choice([1.0, 1.0, 2.0, 6371.0, 0.5, 1.000003, 0.999996]), "centre_shift": rng.choice([0.0, 0.0, 0.15])}
+    elif r < 0.86:
         spec["prov"] = rng.choice(["vertices", "vertices_xyz", "vertices_xyz"])
     else:
-        spec["prov"] = "ugrid_mem"
-        spec["dialect"] = {"lon360": rng.random() < 0.5, "start": rng.choice([0, 1])}
+        spec["prov"] = rng.choice(["ugrid_mem", "ugrid_mem_chunked", "ugrid_file"])
+        spec["dialect"] = {"lon360": rng.random() < 0.5, "start": rng.choice([0, 1]), "chunks": rng.random() < 0.5}
     return spec
 
 
@@ -123,9 +123,13 @@ class Coords(Profile):
         ops = []
         for _ in range(n):
             r = rng.random()
-            if r < 0.62:
+            if r < 0.58:
                 ops.append({"op": "attr", "name": rng.choice(COORD_ATTRS)})
-            elif r < 0.72:
+            elif r < 0.62:
+                ops.append({"op": "chunk", "n": rng.choice([-1, 3])})
+            elif r < 0.66:
+                ops.append({"op": "face_centers", "method": rng.choice(["cartesian average", "cartesian average", "welzl"]), "rs": rng.randrange(10**6)})
+            elif r < 0.74:
                 ops.append({"op": "normalize"})
             else:
                 ops.append(dict(rng.choice(INDIRECT), op="indirect"))
@@ -134,6 +138,8 @@ class Coords(Profile):
     def op_class(self, op):
         if op["op"] == "attr":
             return "attr:" + op["name"]
+        if op["op"] == "face_centers":
+            return "face_centers:" + op["method"]
         if op["op"] == "indirect":
             return "via:" + op["via"] + (":" + (op.get("coords") or op.get("element") or "") if (op.get("coords") or op.get("element")) else "")
         return op["op"]
@@ -142,6 +148,7 @@ class Coords(Profile):
         W.first = {k: 0 for k in KINDS}  # first accesses that derived something, per kind
         W.normalized = False
         W.before_norm = None
+        W.face_repop = None  # method of the last successful construct_face_centers()
 
     # ------------------------------------------------------------------
     def step(self, W, i, op):
@@ -160,6 +167,14 @@ class Coords(Profile):
                 W.before_norm = self.snapshot_xyz(g)
                 g.normalize_cartesian_coordinates()
                 W.normalized = True
+            elif n == "chunk":
+                g.chunk(n_node=op["n"], n_edge=op["n"], n_face=op["n"])
+                W.fire("storage_switch")
+            elif n == "face_centers":
+                np.random.seed(op.get("rs", 0))
+                g.construct_face_centers(op["method"])
+                W.face_repop = op["method"]
+                W.fire("face_centers_repopulated")
             else:
                 self.indirect(W, g, op)
         except Exception as e:
@@ -169,6 +184,8 @@ class Coords(Profile):
                 return out, [V(f"C04/attr[{op['name']}]/exception({type(e).__name__})", i, f"Grid.{op['name']} raised {type(e).__name__}: {str(e)[:200]}")]
             if n == "normalize":
                 return out, [V(f"C04/normalize/exception({type(e).__name__})", i, f"normalize_cartesian_coordinates raised {type(e).__name__}: {str(e)[:200]}")]
+            if n == "face_centers" and op["method"] == "cartesian average":
+                return out, [V(f"C04/face_centers/exception({type(e).__name__})", i, f"construct_face_centers('cartesian average') raised {type(e).__name__}: {str(e)[:200]}")]
         after = set(map(str, g._ds.variables))
         new = after - before
         for k in KINDS:
@@ -265,6 +282,10 @@ class Coords(Profile):
             has_ll, has_xyz = self.present(g, kind)
             shipped_ll = f"{kind}_lon" in sh
             shipped_xyz = f"{kind}_x" in sh
+            src_had_centres = shipped_ll or shipped_xyz
+            if kind == "face" and W.face_repop:
+                # construct_face_centers() replaced whatever the source supplied
+                shipped_ll = shipped_xyz = False
             if has_ll:
                 lon, lat = self.read_ll(g, kind)
                 # I1 ranges
@@ -284,7 +305,9 @@ class Coords(Profile):
                 if np.any(~np.isfinite(v)):
                     return [V(f"C04/{kind}/non-finite-xyz", i, f"{kind}_x/y/z contain NaN/inf after {ctx} (shipped lon/lat={shipped_ll}, xyz={shipped_xyz})")]
                 ln = np.linalg.norm(v, axis=-1)
-                if not shipped_xyz or W.normalized:
+                if kind == "face" and W.face_repop and f"{kind}_x" in sh:
+                    pass  # re-derived from the source's own Cartesian centres: they keep their length
+                elif not shipped_xyz or W.normalized:
                     # I3 derived (or normalised) Cartesian coordinates have unit length
                     # supplied coordinates that normalize_cartesian_coordinates() regards as already
                     # normalised (its own closeness test, 1e-5 relative) may keep their length
@@ -313,6 +336,11 @@ class Coords(Profile):
                         f"{kind} {j}: (lon, lat)=({lon[j]:.9f}, {lat[j]:.9f}) and xyz={np.round(v[j], 9).tolist()} are {d[j]:.3g} rad apart after {ctx} ({bad.size} elements; shipped lon/lat={shipped_ll}, xyz={shipped_xyz})",
                     )]
             # I5 derived centres are the normalised mean of the corner unit vectors
+            if kind == "face" and W.face_repop:
+                # after construct_face_centers() the centres are whatever that call made of them
+                # (Welzl centres, or a re-derivation from Cartesian centres already stored): the
+                # corner-mean clause speaks of centres the library derives on its own
+                continue
             if kind != "node" and on_sphere and not shipped_ll and not shipped_xyz and (has_ll or has_xyz):
                 m = src.model
                 if kind == "face":
